@@ -9,13 +9,14 @@ from mc.core import viol
 ID = 'C02'
 LEVEL = 'exploration'
 RULE = ('recorded program P over {in ia, in ib, out oa} subsets x replayed probe program P\' (present / absent calls, up to the length '
-        'bound) x the full product of missing-key options (5 fallback kinds x run-original x 8 substitutes incl. falsy and callable; '
+        'bound) x the full product of missing-key options (6 fallback kinds x run-original x 8 substitutes incl. falsy and callable; '
         'fail-on-missing x 3 defaults) x recording enabled/disabled during replay x two consecutive replays x cassette; observations, '
         'executed bodies, cassette traffic and store bytes compared with the reference policy. Non-trivial = at least one absent call.')
 ASSUMPTIONS = ['policy order taken from the README / docstrings: fallback aliases, run original, substitute (falsy ones included), else RecordingKeyError',
                'full option product on the in-memory cassette, a slice of it on file and S3(fake) cassettes']
 
-FALLBACKS = {'none': None, 'list-hit': ['ib'], 'list-miss': ['zz'], 'call-hit': {'call': ['zz', 'ib']}, 'call-miss': {'call': ['zz']}}
+FALLBACKS = {'none': None, 'list-hit': ['ib'], 'list-miss': ['zz'], 'call-hit': {'call': ['zz', 'ib']}, 'call-miss': {'call': ['zz']},
+             'iter-hit': {'call_iter': ['zz', 'ib']}}
 MISSING = {'unset': None, 'truthy': 'u5', 'zero': 'v0', 'empty-str': 've', 'empty-list': 'vel', 'empty-dict': 'ved', 'false': 'vfalse',
            'call': {'call': 'u6'}, 'call-zero': {'call': 'v0'}, 'call-none': {'call': 'vn'}}
 P.VALS.setdefault('vfalse', lambda: False)
